@@ -316,7 +316,18 @@ func (e *emitter) Message(data []byte, streamEnded bool) error {
 			}
 			data = buf.Bytes()
 		case Snappy:
-			data = snappy.Encode(nil, data)
+			// The adapter reads snappy messages in the framing format (snappy.NewReader), so they must
+			// be written in the framing format too. snappy.Encode produces the block format, which
+			// neither this adapter nor a peer that sent the framing format can decode.
+			var buf bytes.Buffer
+			w := snappy.NewBufferedWriter(&buf)
+			if _, err := w.Write(data); err != nil {
+				return fmt.Errorf("snappy compressing message data: %w", err)
+			}
+			if err := w.Close(); err != nil {
+				return fmt.Errorf("snappy compressing message data: %w", err)
+			}
+			data = buf.Bytes()
 		}
 	}
 	var buf bytes.Buffer
